@@ -446,6 +446,11 @@ type Domain struct {
 	// NoFracEqOnIndexedDec: `=` / `<>` between a bare indexed DECIMAL column and a fractional literal is
 	// generated with a range operator instead.
 	NoFracEqOnIndexedDec bool
+	// NoArithInListLeft: the left operand of an IN list contains no multiplication, modulo or unary minus
+	// (operations that can produce a negative-zero DECIMAL).
+	NoArithInListLeft bool
+	// NoLikeOnCIFunc: LIKE over a case-insensitive string takes a bare column as its left operand.
+	NoLikeOnCIFunc bool
 }
 
 // Gen generates typed expressions over a scope of column references.
@@ -738,7 +743,11 @@ func (g *Gen) Atom(depth int) *Expr {
 		if k == KCI && g.NoCIInList {
 			k = KStr
 		}
-		return g.InList(k, g.Value(k, vd), 1+r.Intn(5))
+		left := g.Value(k, vd)
+		if g.NoArithInListLeft && CanMakeNegZero(left) {
+			left = g.col(k)
+		}
+		return g.InList(k, left, 1+r.Intn(5))
 	case 13:
 		k := KStr
 		if g.has(KCI) && r.Intn(3) == 0 {
@@ -747,8 +756,12 @@ func (g *Gen) Atom(depth int) *Expr {
 		if !g.has(k) {
 			return g.Atom(depth)
 		}
+		likeLeft := g.Value(k, vd)
+		if k == KCI && g.NoLikeOnCIFunc {
+			likeLeft = g.col(k)
+		}
 		pats := []string{"'a%'", "'%b'", "'%'", "'_'", "'a_'", "'%a%'", "'A%'", "'ab'", "''", "'b\\%'", "'%b%'", "'__%'"}
-		return &Expr{Op: "like", Kind: KBool, Neg: r.Intn(4) == 0, Args: []*Expr{g.Value(k, vd), {Op: "lit", Kind: KStr, Name: pats[r.Intn(len(pats))]}}}
+		return &Expr{Op: "like", Kind: KBool, Neg: r.Intn(4) == 0, Args: []*Expr{likeLeft, {Op: "lit", Kind: KStr, Name: pats[r.Intn(len(pats))]}}}
 	case 14:
 		// constant sub-expressions (simplifyFilters)
 		c := []string{"TRUE", "FALSE", "NULL", "(1 = 1)", "(1 = 0)", "(NULL = 1)", "(2 > 1)", "(NULL IS NULL)"}[r.Intn(8)]
@@ -828,6 +841,17 @@ func (g *Gen) noIntIndex(e *Expr) *Expr {
 		return &Expr{Op: "bin", Kind: KInt, Name: "+", Args: []*Expr{e, {Op: "lit", Kind: KInt, Name: "0"}}}
 	}
 	return e
+}
+
+// CanMakeNegZero reports whether the expression contains *, % or unary minus.
+func CanMakeNegZero(e *Expr) bool {
+	found := false
+	e.Walk(func(x *Expr) {
+		if x.Op == "neg" || (x.Op == "bin" && (x.Name == "*" || x.Name == "%")) {
+			found = true
+		}
+	})
+	return found
 }
 
 // IsFracLit reports whether the expression is a decimal literal with a non-zero fraction.
